@@ -150,6 +150,18 @@ def extOf (bad : String) : QL.Ext :=
   let badList := if bad = "-" then [] else (bad.splitOn ",").filterMap unhex
   { parseI := parseIsize, parseF := parseFloatLit, isDt := isDatetimeLit, regexOk := fun s => !badList.contains s, parseNat := parseUsizeTok }
 
+/-- `ql q <hex> <bad>`: `Query::parse` (all three query types) and `to_string` of what it parsed -/
+def qLine (h bad : String) (withPrint : Bool) : String :=
+  match unhex h with
+  | some s =>
+    match QL.parseQueryAll (extOf bad) s with
+    | .ok (qq, r) =>
+      let printed := if withPrint then (match QL.printQQ (fun n => (toString n).toList) qq with | some t => hexOf t | none => "~") else "~"
+      s!"ok | {showQQ qq} | {hexOf r} | {printed}"
+    | .err m => if m = "unmodelled" then "skip-unmodelled" else if m = "fuel" then "fuel" else "err"
+    | .panic m => "panic:" ++ m
+  | none => "bad-op"
+
 /-- `ql arg <hex>` / `ql type <hex> <quoted>` / `ql op <ophex> <valuehex> <quoted>` / `ql cn <hex> <reok>` / `ql q <hex> <bad>` -/
 def ql (args : List String) : String :=
   match args with
@@ -182,18 +194,10 @@ def ql (args : List String) : String :=
       | .err m => if m = "unmodelled" then "unmodelled" else "err"
       | .panic m => "panic:" ++ m
     | none => "bad-op"
-  | ["q", h, bad] =>
-    match unhex h with
-    | some s =>
-      match QL.parseQueryAll (extOf bad) s with
-      | .ok (qq, r) =>
-        let printed := match qq with
-          | .select q => (match QL.printQ (fun n => (toString n).toList) q with | some t => hexOf t | none => "~")
-          | _ => "~"
-        s!"ok | {showQQ qq} | {hexOf r} | {printed}"
-      | .err m => if m = "unmodelled" then "skip-unmodelled" else if m = "fuel" then "fuel" else "err"
-      | .panic m => "panic:" ++ m
-    | none => "bad-op"
+  | ["q", h, bad] => qLine h bad true
+  -- (a float of an assignment is printed by the code from its value; the model prints the literal: the harness asks for
+  -- no printed text when a literal is not in the form the code prints)
+  | ["q", h, bad, "noprint"] => qLine h bad false
   | _ => "bad-op"
 
 end Driver
